@@ -27,16 +27,20 @@
  *   ["wf_start", a]                                                     Activity::start() (vetoed unless assigned and dependencies solved)
  *   ["wf_assign", a, {"host"|"src"|"dst"|"disk": name}]                 set_host / set_source / set_destination / set_disk (keys applied in the order host, src, dst, disk)
  *   ["wf_info", a]                                                      {"state","assigned","deps_solved","preds":[names],"succs":[names]}
+ *   ["wf_wait_each", [a...]]                                            ActivitySet of these activities, wait_any until it is empty; result [[name, date]...]
  *   ["wf_load", "json"|"dax", file]                                     create_DAG_from_json / _DAX; result: [{"name","kind","amount","state","assigned","preds","succs","host"|"src","dst"}] in the loader's order
+ * Scenario key "wf": {} enables the veto records; "wf": {"veto_cb": {name: assignment}} assigns from the on_veto callback once the
+ * dependencies of the activity are solved.
  * Records: {"k":"veto","type","name","t","assigned","deps_solved"} from the on_veto signals; act_start / act_end come from the core.
  */
 #pragma once
+#include "simgrid/instr.h"
 #include "simgrid/plugins/file_system.h"
 #include "simgrid/s4u/Disk.hpp"
 
 namespace vf {
 
-static const char* const wf_ext_version = "wf-ext-v2";
+static const char* const wf_ext_version = "wf-ext-v3";
 
 static std::map<int, sg4::File*>& wf_files()
 {
@@ -276,6 +280,17 @@ static bool wf_dag_ops(Ctx&, int, const json& op, json& result)
     result = wf_describe(wf_act(op[1]).get());
     return true;
   }
+  if (o == "wf_wait_each") { // ["wf_wait_each", [h...]]: ActivitySet + wait_any until the set is empty (the pattern of examples/cpp/exec-dependent)
+    sg4::ActivitySet set;
+    for (auto const& hh : op[1])
+      set.push(wf_act(hh));
+    result = json::array();
+    while (not set.empty()) {
+      auto a = set.wait_any();
+      result.push_back({a->get_name(), hx(now())});
+    }
+    return true;
+  }
   if (o == "wf_load") {
     std::vector<sg4::ActivityPtr> dag = op[1].get<std::string>() == "json" ? sg4::create_DAG_from_json(op[2].get<std::string>())
                                                                           : sg4::create_DAG_from_DAX(op[2].get<std::string>());
@@ -294,6 +309,14 @@ template <class A> static void wf_veto_record(const char* type, A& a)
   json j = {{"k", "veto"}, {"type", type}, {"name", a.get_name()}, {"t", hx(now())}, {"assigned", a.is_assigned()},
             {"deps_solved", a.dependencies_solved()}};
   emit(j);
+  // scenario "wf": {"veto_cb": {name: assignment}}: schedule from the callback once the dependencies are solved (examples/cpp/exec-dependent)
+  const json& wf = S->scenario["wf"];
+  static std::set<std::string> busy; // Comm::set_source vetoes again (the destination is still missing): do not re-enter
+  if (wf.is_object() && wf.contains("veto_cb") && wf["veto_cb"].contains(a.get_name()) && a.dependencies_solved() && not a.is_assigned() &&
+      busy.insert(a.get_name()).second) {
+    wf_assign(&a, wf["veto_cb"][a.get_name()]);
+    busy.erase(a.get_name());
+  }
 }
 
 static void wf_dag_setup()
@@ -306,6 +329,66 @@ static void wf_dag_setup()
 }
 
 static ExtRegister wf_dag_reg(wf_dag_ops, wf_dag_setup);
+
+/* ------------------------------------------------------------------------------------------------ C47: tracing
+ * scenario "trace": {"categories": [names]} declares tracing categories (simgrid::instr::declare_tracing_category);
+ *   ["cat_exec", flops, category]    exec_init + set_tracing_category + start + wait
+ *   ["cat_put", mb, size, category]  put_init + set_tracing_category + start + wait (blocking send)
+ *   ["mark", type, value]            simgrid::instr::declare_mark / declare_mark_value (first use) + mark
+ *   ["host_var", host, variable, "set"|"add"|"sub", value]   user variables of a host (declared at first use) */
+static bool wf_trace_ops(Ctx& c, int idx, const json& op, json& result)
+{
+  const std::string o = op[0].get<std::string>();
+  result              = nullptr;
+  if (o == "cat_exec") {
+    auto ex = sg4::this_actor::exec_init(op[1].get<double>());
+    ex->set_name(c.name + "#" + std::to_string(idx));
+    ex->set_tracing_category(op[2].get<std::string>());
+    ex->start()->wait();
+    return true;
+  }
+  if (o == "cat_put") {
+    auto* p   = make_payload(c, op[2].get<double>(), 0);
+    auto comm = S->mailboxes[op[1].get<int>()]->put_init(p, static_cast<uint64_t>(op[2].get<double>()));
+    comm->set_name(c.name + "#" + std::to_string(idx));
+    comm->set_tracing_category(op[3].get<std::string>());
+    comm->start()->wait();
+    return true;
+  }
+  if (o == "mark") {
+    static std::set<std::string> types, vals;
+    std::string t = op[1].get<std::string>(), v = op[2].get<std::string>();
+    if (types.insert(t).second)
+      simgrid::instr::declare_mark(t);
+    if (vals.insert(t + "/" + v).second)
+      simgrid::instr::declare_mark_value(t, v);
+    simgrid::instr::mark(t, v);
+    return true;
+  }
+  if (o == "host_var") {
+    static std::set<std::string> vars;
+    std::string h = op[1].get<std::string>(), v = op[2].get<std::string>(), how = op[3].get<std::string>();
+    if (vars.insert(v).second)
+      simgrid::instr::declare_host_variable(v);
+    if (how == "set")
+      simgrid::instr::set_host_variable(h, v, op[4].get<double>());
+    else if (how == "add")
+      simgrid::instr::add_host_variable(h, v, op[4].get<double>());
+    else
+      simgrid::instr::sub_host_variable(h, v, op[4].get<double>());
+    return true;
+  }
+  return false;
+}
+
+static void wf_trace_setup()
+{
+  if (S->scenario.contains("trace") && S->scenario["trace"].contains("categories"))
+    for (auto const& cat : S->scenario["trace"]["categories"])
+      simgrid::instr::declare_tracing_category(cat.get<std::string>());
+}
+
+static ExtRegister wf_trace_reg(wf_trace_ops, wf_trace_setup);
 
 /* run by drivers/s4u_wf.cpp: the operations of the main thread (before Engine::run) */
 static void wf_main_ops(const json& ops)
